@@ -32,14 +32,17 @@ ACTIONS = ["Edit", "Begin", "End", "Kill", "PrepStart", "PrepInval", "PrepPrune"
 
 
 def replay_task(arg):
-    i, hist, origin, release, jobs, cache = arg
+    i, hist, origin, release, jobs, cache = arg[:6]
+    override = arg[6] if len(arg) > 6 else None
     work = common.scratch("vf-c05-")
     try:
-        r = bc.BehaviourReplay(hist, work, bc.Oracle(cache), release=release, jobs=jobs).run()
+        r = bc.BehaviourReplay(hist, work, bc.Oracle(cache), release=release, jobs=jobs, kill_override=override).run()
     finally:
         shutil.rmtree(work, ignore_errors=True)
-    return {"i": i, "origin": origin, "violations": r.violations, "drift": r.drift, "invocations": r.invocations,
-            "nontrivial": sorted(r.nontrivial), "shape": bc.shape_of(hist), "oracle_builds": r.oracle.builds}
+    nt = sorted(r.nontrivial) + (["kill-at-event-%d" % override] if override is not None else [])
+    return {"i": i, "origin": origin, "violations": r.violations, "drift": [] if override is not None else r.drift,
+            "invocations": r.invocations, "nontrivial": nt, "shape": bc.shape_of(hist), "oracle_builds": r.oracle.builds,
+            "first_kill_events": r.first_kill_events, "hist": hist if override is None else None, "override": override}
 
 
 def select(hists, limit, rng, need=lambda h: True):
@@ -172,8 +175,14 @@ def main():
     for i, (h, origin) in enumerate(behaviours):
         jobs = 1 if origin.startswith("cex") or rng.random() < 0.7 else 4
         tasks.append((i, h, origin, False, jobs, cache))
+    enum_tasks = []
     with mp.get_context("fork").Pool(common.workers()) as pool:
         for r in pool.imap_unordered(replay_task, tasks):
+            if not quick and r["first_kill_events"] and len(enum_tasks) < 4000 and r["origin"].startswith("cex"):
+                # thorough: every recorded event of the interrupted invocation as kill point (fault enumeration)
+                if sum(1 for t in enum_tasks if t[1] is r["hist"]) == 0 and len({id(t[1]) for t in enum_tasks}) < 40:
+                    enum_tasks += [(100000 + len(enum_tasks) + k, r["hist"], r["origin"] + ":enum", False, 1, cache, k)
+                                   for k in range(r["first_kill_events"])]
             rep.traces += 1
             rep.evaluations += r["invocations"] + r["oracle_builds"]
             for nt in r["nontrivial"]:
@@ -185,6 +194,18 @@ def main():
                 rep.violation(sig, detail)
             if r["i"] % 40 == 0:
                 rep.sample({"origin": r["origin"], "behaviour": r["shape"]})
+    if enum_tasks:
+        rep.extra["kill_points_enumerated"] = len(enum_tasks)
+        with mp.get_context("fork").Pool(common.workers()) as pool:
+            for r in pool.imap_unordered(replay_task, enum_tasks):
+                rep.traces += 1
+                rep.evaluations += r["invocations"] + r["oracle_builds"]
+                for nt in r["nontrivial"]:
+                    rep.nontriv(nt)
+                for sig, detail in r["violations"]:
+                    detail["origin"] = r["origin"]
+                    detail["kill_at_event"] = r["override"]
+                    rep.violation(sig, detail)
     if rep.drift:
         rep.level = "exploration"
     return rep.finish()
